@@ -185,7 +185,11 @@ func (g *egSpec) render(name string, options map[string]string, space bool, pars
 	}
 	sb.WriteString(";\n\n")
 	for ni, nt := range g.NTs {
-		sb.WriteString(nt.Name + options["__ntType"])
+		ntType := options["__ntType"]
+		if t, ok := options["__ntType:"+nt.Name]; ok {
+			ntType = t // per-nonterminal override (C18, cc target)
+		}
+		sb.WriteString(nt.Name + ntType)
 		if nt.Node != "" {
 			sb.WriteString(" -> " + nt.Node)
 		}
